@@ -254,6 +254,75 @@ func appendV2(av types2.AttributeValue, p *picker) {
 	}
 }
 
+// pokeTypes mutates every selected mutable location of a minidyn types.Item
+// (the v1 client hands its own ConditionalCheckFailedException to the caller).
+func pokeTypes(av *mtypes.Item, p *picker) {
+	if av == nil {
+		return
+	}
+	if av.S != nil && p.pick() {
+		*av.S = *av.S + "~poked"
+	}
+	if av.N != nil && p.pick() {
+		*av.N = "424242"
+	}
+	if av.BOOL != nil && p.pick() {
+		*av.BOOL = !*av.BOOL
+	}
+	if av.NULL != nil && p.pick() {
+		*av.NULL = !*av.NULL
+	}
+	if len(av.B) > 0 && p.pick() {
+		av.B[0] ^= 0xff
+	}
+	for _, s := range av.SS {
+		if s != nil && p.pick() {
+			*s = *s + "~poked"
+		}
+	}
+	for _, s := range av.NS {
+		if s != nil && p.pick() {
+			*s = "424242"
+		}
+	}
+	for _, b := range av.BS {
+		if len(b) > 0 && p.pick() {
+			b[0] ^= 0xff
+		}
+	}
+	for i, e := range av.L {
+		pokeTypes(e, p)
+		if p.pick() {
+			r := "replaced"
+			av.L[i] = &mtypes.Item{S: &r}
+		}
+	}
+	if av.M != nil {
+		pokeTypesMap(av.M, p)
+	}
+}
+
+func pokeTypesMap(m map[string]*mtypes.Item, p *picker) {
+	keys := make([]string, 0, len(m))
+	for k := range m {
+		keys = append(keys, k)
+	}
+	sort.Strings(keys)
+	for _, k := range keys {
+		if k == "pk" {
+			continue
+		}
+		pokeTypes(m[k], p)
+		if p.pick() {
+			delete(m, k)
+		}
+	}
+	if p.pick() {
+		x := "x"
+		m["injected"] = &mtypes.Item{S: &x}
+	}
+}
+
 // c14Neighbour: the item written after the output was handed out.
 func c14Neighbour() model.Item {
 	return model.Item{"pk": model.Str("neighbour"), "b": model.Bin([]byte("cccc")), "bs": model.BinSet([]byte("dddd"), []byte("ee")),
@@ -438,6 +507,16 @@ func runC14(c c14Case, pokes *int) (fl *failure) {
 			pokeV1Map(keyIn, p)
 			pokeV1Map(vals, p)
 			return differs("after mutating the key and values of an upserting UpdateItem", read(), exp)
+		case "condition-failure-item":
+			// the v1 client returns minidyn's own exception type; whatever item it carries is the caller's
+			_, err := cl.UpdateItem(&ddb1.UpdateItemInput{TableName: aws1.String("tbl"), Key: drv.ToV1Item(key), UpdateExpression: aws1.String("SET upd = :v"),
+				ConditionExpression: aws1.String("attribute_not_exists(pk)"), ExpressionAttributeValues: drv.ToV1Item(model.Item{":v": model.Str("x")})})
+			var cf *mtypes.ConditionalCheckFailedException
+			if !errors.As(err, &cf) || cf.Item == nil {
+				return nil
+			}
+			pokeTypesMap(cf.Item, p)
+			return differs("after mutating the item carried by a ConditionalCheckFailedException", get(), want)
 		case "append-to-output-after-later-write":
 			// three rounds, so that a buffer boundary inside the library cannot hide the effect
 			for round := 0; round < 3; round++ {
